@@ -58,6 +58,17 @@ def fan_out(pout="FIRST_AVAILABLE", iat=(2, 2, 2, 2, 2, 2), wc=1, pd=(1,), caps=
     return {"Q": Q, "T": T, "family": "fan-out", "expect": "valid", "drains": True, "nodes": nodes, "edges": edges}
 
 
+def fan_in_out(pin="ROUND_ROBIN", pout="ROUND_ROBIN", iat1=(2, 2, 2, 2, 2), iat2=(2, 2, 2, 2, 2), wc=1, pd=(1,), T=120, mb=True, nout=2):
+    """two sources -> machine with a policy on BOTH sides -> nout sinks"""
+    nodes = [_n("source", blocking=True, iat=list(iat1)), _n("source", blocking=True, iat=list(iat2)),
+             _n("machine", wc=wc, pd=list(pd), blocking=mb, policy_in=pin, policy_out=pout)]
+    edges = [_e("buffer", 0, 2, cap=2), _e("buffer", 1, 2, cap=2)]
+    for k in range(nout):
+        nodes.append(_n("sink"))
+        edges.append(_e("buffer", 2, 3 + k, cap=2))
+    return {"Q": Q, "T": T, "family": "fan-in-out", "expect": "valid", "drains": pin == "FIRST_AVAILABLE", "nodes": nodes, "edges": edges}
+
+
 def src_fan_out(pout="FIRST_AVAILABLE", blocking=True, iat=(2, 2, 2, 2, 2, 2), caps=(1, 1), delays=(8, 8), T=120):
     return {"Q": Q, "T": T, "family": "src-fan-out", "expect": "valid", "drains": True,
             "nodes": [_n("source", blocking=blocking, iat=list(iat), policy_out=pout), _n("sink"), _n("sink")],
@@ -114,7 +125,10 @@ def invalid_configs():
     out = []
     c = line_sbk(cap=0); c.update(expect="invalid", family="invalid:capacity0", why="non-positive capacity"); out.append(c)
     c = line_sbk(cap=-1); c.update(expect="invalid", family="invalid:capacity-1", why="non-positive capacity"); out.append(c)
-    c = line_sbk(mode="RANDOM"); c.update(expect="invalid", family="invalid:mode", why="unknown buffer mode"); out.append(c)
+    for m in ("RANDOM", "fifo", "Lifo", "", "FIFO "):
+        c = line_sbk(mode=m); c.update(expect="invalid", family="invalid:mode", why="unknown buffer mode"); out.append(c)
+    c = line_sbmbk(k1={"mode": "lifo"}); c.update(expect="invalid", family="invalid:mode", why="unknown buffer mode"); out.append(c)
+    c = line_sbk(cap=2.5); c.update(expect="invalid", family="invalid:capacity-float", why="non-integer capacity"); out.append(c)
     c = line_sbk(delay=-4); c.update(expect="invalid", family="invalid:negdelay-buffer", why="negative delay"); out.append(c)
     c = line_sbmbk(pd=(-4,)); c.update(expect="invalid", family="invalid:negdelay-machine", why="negative delay"); out.append(c)
     c = line_sbk(blocking=False, iat=(0,)); c["nodes"][0]["iat"] = {"const": 0}
@@ -164,6 +178,11 @@ def families(tier):
         for blocking in [True, False]:
             C.append(src_fan_out(pout=pout, blocking=blocking))
             C.append(src_fan_out(pout=pout, blocking=blocking, caps=(1, 2), delays=(20, 2)))
+    for pin, pout, nout in [("ROUND_ROBIN", "ROUND_ROBIN", 2), ("ROUND_ROBIN", "ROUND_ROBIN", 3), ("RANDOM", "RANDOM", 2),
+                            ("ROUND_ROBIN", "FIRST_AVAILABLE", 2), ("FIRST_AVAILABLE", "ROUND_ROBIN", 3), (1, 0, 2),
+                            ({"script": [0, 1, 1]}, {"script": [1, 0, 0]}, 2)]:
+        C.append(fan_in_out(pin=pin, pout=pout, nout=nout))
+        C.append(fan_in_out(pin=pin, pout=pout, nout=nout, wc=2, pd=(3, 1), mb=False, iat1=(1, 1, 1, 1, 1, 1), iat2=(3, 3, 3)))
     # several workers finishing in the same instant in front of several out-edges (reserve on all, cancel the rest)
     for wc, iat, pd, caps, slow in [(2, (0, 0, 0, 0, 0, 0), (3,), (1, 1), (5, 0)), (2, (0, 0, 0, 0), (2,), (1, 1), (0, 7)),
                                     (3, (0, 0, 0, 1, 0, 0), (4,), (1, 2), (6, 6)), (2, (1, 0, 1, 0, 1, 0), (2, 2, 3), (1, 1), (9, 2))]:
@@ -224,7 +243,7 @@ def families(tier):
 
 
 def random_config(rng, i):
-    kind = rng.choice(["sbk", "sbmbk", "sbmbk", "fanin", "fanout", "srcfan", "comb", "psplit", "fleetmid"])
+    kind = rng.choice(["sbk", "sbmbk", "sbmbk", "fanin", "fanout", "srcfan", "comb", "psplit", "fleetmid", "faninout"])
     iat = tuple(rng.choice([0, 1, 2, 3, 5, 8]) for _ in range(rng.randint(2, 8)))
     pd = tuple(rng.choice([0, 1, 2, 4, 7]) for _ in range(rng.randint(1, 3)))
     pol = lambda n: rng.choice(["FIRST_AVAILABLE", "ROUND_ROBIN", "RANDOM", rng.randrange(n),
@@ -261,6 +280,10 @@ def random_config(rng, i):
             iat = tuple(x or 1 for x in iat)
         c = src_fan_out(pout=pol(2), blocking=b, iat=iat, caps=(rng.randint(1, 2), rng.randint(1, 2)),
                         delays=(rng.choice([0, 4, 12]), rng.choice([0, 4, 12])), T=T)
+    elif kind == "faninout":
+        nout = rng.randint(2, 3)
+        c = fan_in_out(pin=pol(2), pout=pol(nout), iat1=iat, iat2=tuple(rng.choice([1, 2, 4]) for _ in range(5)), wc=rng.randint(1, 2),
+                       pd=pd, T=T, mb=rng.random() < 0.6, nout=nout)
     elif kind == "fleetmid":
         r = rng.choice([1, 2, 2, 3])
         c = fleet_mid(iat1=(r,) * rng.randint(4, 10), iat2=(rng.choice([r, r, 1, 3]),) * rng.randint(4, 10), wc=rng.randint(1, 3),
